@@ -977,6 +977,14 @@ fn process_write_batch(
                         sector
                     }
                     Err(error) => {
+                        #[cfg(feoxdb_verif)]
+                        crate::verif::proto::event(
+                            crate::verif::proto::Kind::AllocFail,
+                            sectors_needed as u64,
+                            0,
+                            &prepared_writes[index].entry.record.key,
+                            prepared_writes[index].entry.record.timestamp,
+                        );
                         drop(free_space_guard);
                         let _ = release_allocations(free_space, &prepared_writes, stats);
                         retry_entries.extend(prepared_writes.drain(..).map(|write| write.entry));
